@@ -28,6 +28,7 @@ import (
 	partrepo "github.com/jdillenkofer/pithos/internal/storage/database/repository/part"
 	tagrepo "github.com/jdillenkofer/pithos/internal/storage/database/repository/tag"
 	usermetarepo "github.com/jdillenkofer/pithos/internal/storage/database/repository/usermetadata"
+	"github.com/jdillenkofer/pithos/internal/storage/metadatapart/metadatastore"
 	sqlstore "github.com/jdillenkofer/pithos/internal/storage/metadatapart/metadatastore/sql"
 	"github.com/jdillenkofer/pithos/internal/storage/metadatapart/partstore"
 	"github.com/oklog/ulid/v2"
@@ -189,22 +190,51 @@ func (s *verifPartStore) snapshot() []verifPart {
 	return append([]verifPart(nil), s.parts...)
 }
 
+// verifCommitFault: one more fault point per part-store write - the database
+// COMMIT of the transaction fails (the sql.Tx is ended by a late pre-commit
+// hook, so Commit reports an error after the stores' pre-commit work).
+func verifCommitFault(tx database.Tx) {
+	if tx != nil && verifFaultPoint() {
+		tx.OnPreCommit(func(context.Context) error {
+			_ = tx.SqlTx().Rollback()
+			return nil
+		})
+	}
+}
+
 func (s *verifPartStore) PutPart(ctx context.Context, tx database.Tx, partId partstore.PartId, reader io.Reader) error {
 	if verifFaultPoint() {
 		return verifErrInjected
 	}
+	verifCommitFault(tx)
 	data, err := io.ReadAll(reader)
 	if err != nil {
 		return err
 	}
-	before := s.snapshot()
-	tx.OnRollback(func(context.Context) error { s.parts = before; return nil })
+	// the undo is per part (like the real stores' per-file rollback), so that
+	// several rollback hooks of one transaction commute
 	if i := s.find(partId); i >= 0 {
+		old := s.parts[i].data
+		tx.OnRollback(func(context.Context) error {
+			if j := s.find(partId); j >= 0 {
+				s.parts[j].data = old
+			} else {
+				s.parts = append(s.parts, verifPart{id: partId, data: old})
+			}
+			return nil
+		})
 		s.parts[i].data = data
 		return nil
 	}
+	tx.OnRollback(func(context.Context) error { s.remove(partId); return nil })
 	s.parts = append(s.parts, verifPart{id: partId, data: data})
 	return nil
+}
+
+func (s *verifPartStore) remove(id partstore.PartId) {
+	if i := s.find(id); i >= 0 {
+		s.parts = append(append([]verifPart(nil), s.parts[:i]...), s.parts[i+1:]...)
+	}
 }
 
 func (s *verifPartStore) GetPart(ctx context.Context, tx database.Tx, partId partstore.PartId) (io.ReadCloser, error) {
@@ -230,19 +260,27 @@ func (s *verifPartStore) DeletePart(ctx context.Context, tx database.Tx, partId 
 	if verifFaultPoint() {
 		return verifErrInjected
 	}
+	verifCommitFault(tx)
 	i := s.find(partId)
 	if i < 0 {
 		return nil
 	}
-	before := s.snapshot()
-	tx.OnRollback(func(context.Context) error { s.parts = before; return nil })
-	s.parts = append(append([]verifPart(nil), s.parts[:i]...), s.parts[i+1:]...)
+	old := s.parts[i].data
+	tx.OnRollback(func(context.Context) error {
+		if s.find(partId) < 0 {
+			s.parts = append(s.parts, verifPart{id: partId, data: old})
+		}
+		return nil
+	})
+	s.remove(partId)
 	return nil
 }
 
 // ---- environment ----------------------------------------------------------
 
 type verifEnv struct {
+	db     database.Database
+	ms     metadatastore.MetadataStore
 	st     *metadataPartStorage
 	def    *verifPartStore
 	cold   *verifPartStore // named store "cold" (nil when not configured)
@@ -269,7 +307,7 @@ func verifNewEnv(classToStore map[string]string) *verifEnv {
 	verifMust(err)
 	ms, err := sqlstore.New(db, &verifBucketRepo{b}, &verifObjectRepo{o}, &verifPartRepo{p}, &verifTagRepo{t}, &verifUserMetaRepo{u})
 	verifMust(err)
-	env := &verifEnv{def: &verifPartStore{}, bucket: storage.MustNewBucketName("bucket")}
+	env := &verifEnv{db: db, ms: ms, def: &verifPartStore{}, bucket: storage.MustNewBucketName("bucket")}
 	var extra map[string]partstore.PartStore
 	if classToStore != nil {
 		env.cold = &verifPartStore{}
@@ -279,6 +317,21 @@ func verifNewEnv(classToStore map[string]string) *verifEnv {
 	verifMust(err)
 	env.st = st.(*metadataPartStorage)
 	return env
+}
+
+// verifReopen builds a new storage instance over the same database, metadata
+// store and part stores with another class-to-store mapping (a restart with a
+// remapped configuration).
+func verifReopen(e *verifEnv, classToStore map[string]string) *verifEnv {
+	n := &verifEnv{db: e.db, ms: e.ms, def: e.def, cold: e.cold, bucket: e.bucket}
+	extra := map[string]partstore.PartStore{}
+	if e.cold != nil {
+		extra["cold"] = e.cold
+	}
+	st, err := NewStorageWithNamedPartStores(e.db, e.ms, e.def, extra, classToStore)
+	verifMust(err)
+	n.st = st.(*metadataPartStorage)
+	return n
 }
 
 func verifMust(err error) {
